@@ -187,6 +187,8 @@ def mapped_sequence(g, node, e):
     if isinstance(e, ast.Name):
         defs = prov.rd_of(g).get(node.id, {}).get(e.id, ())
         dn = [g.nodes[i] for i in defs]
+        if len(dn) == 1 and dn[0].kind == "stmt" and isinstance(dn[0].ast, ast.Assign) and isinstance(dn[0].ast.value, (ast.GeneratorExp, ast.ListComp)):
+            return mapped_sequence(g, dn[0], dn[0].ast.value)       # a local bound to the comprehension itself
         if len(dn) == 1 and dn[0].kind == "stmt" and isinstance(dn[0].ast, ast.Assign) and dump(dn[0].ast.value) in ("[]", "list()"):
             apps = [(n, c) for n in g.live_nodes() for c in node_calls(n) if dump(c.func) == e.id + ".append"]
             other = [n for n in g.live_nodes() for c in node_calls(n) if isinstance(c.func, ast.Attribute) and dump(c.func.value) == e.id
